@@ -424,7 +424,14 @@ class Check:
 def proof_stage(chk, prop_modules, extra_targets=("pvdriver",), thorough_leanchecker=True):
     """extract -> lake build -> audit.  Returns (proof_ok, driver_ok, detail)"""
     import extract
-    ext_problems = extract.run()
+    tagged = extract.run_tagged()
+    # a translator refusal concerns a property only when its theorems (transitively) import the Generated
+    # module that generator is responsible for; refusals of unknown scope concern everybody
+    mine = {m.split(".")[-1] for m in lean_files_for(list(prop_modules)) if m.startswith("PV.Generated.")}
+    ext_problems = [p for p, outs in tagged if not outs or (outs & mine)]
+    other = [p for p, outs in tagged if outs and not (outs & mine)]
+    if other:
+        chk.cov["translator_refusals_outside_this_property"] = other[:10]
     targets = list(prop_modules) + list(extra_targets)
     ok, out = lake_build(targets)
     driver_ok = True
